@@ -126,6 +126,9 @@ func (ctx *Ctx) genFunc(fn *ssa.Function, ct *Contract, houdini map[int][]*Claus
 	} else {
 		g.assumeGlobalInvs(st)
 	}
+	if ct != nil {
+		g.assumeUsing(ct, st)
+	}
 	pre := st.clone()
 	if ct != nil {
 		ev := f.topEval(st, nil, args, nil)
@@ -268,4 +271,42 @@ func (vc *FuncVC) smtForRelaxed(o *Obligation, modelSyms []string, extra []strin
 		b.WriteString("(get-value (" + strings.Join(modelSyms, " ") + "))\n")
 	}
 	return b.String()
+}
+
+// assumeUsing: axioms and (separately proved) lemmas a contract asks for, evaluated in the given state.
+func (g *Gen) assumeUsing(ct *Contract, st *State) {
+	for _, name := range ct.Using {
+		var l *Lemma
+		for _, a := range g.ctx.specs.Axioms {
+			if a.Name == name {
+				l = a
+			}
+		}
+		isLemma := false
+		for _, a := range g.ctx.specs.Lemmas {
+			if a.Name == name {
+				l, isLemma = a, true
+			}
+		}
+		if l == nil {
+			g.specErrs = append(g.specErrs, "using: no axiom or lemma named "+name)
+			continue
+		}
+		var pkg *types.Package
+		if p := g.ctx.typPkgs[l.Pkg]; p != nil {
+			pkg = p.Types
+		}
+		ev := &Eval{g: g, st: st, vars: map[string]Val{}, pkg: pkg}
+		t, err := ev.evalBool(l.Expr)
+		if err != nil {
+			g.specErrs = append(g.specErrs, fmt.Sprintf("using %s: %v", name, err))
+			continue
+		}
+		g.assume(st.cond, t)
+		if isLemma {
+			g.usedTrusted["lemma "+name+" (proved separately)"] = true
+		} else {
+			g.usedTrusted["axiom "+name+": "+l.Text] = true
+		}
+	}
 }
